@@ -16,21 +16,31 @@ from dvc_data.hashfile.transfer import transfer
 def populate(tmp, cls, hash_name):
     fs = LocalFileSystem()
     odb = cls(fs, os.path.join(tmp, "store"), hash_name=hash_name) if hash_name else cls(fs, os.path.join(tmp, "store"))
-    src = os.path.join(tmp, "src"); os.makedirs(os.path.join(src, "d"))
-    for n, c in {"d/a": b"A", "d/b": b"B", "loose1": b"L1", "loose2": b"L2"}.items():
+    src = os.path.join(tmp, "src"); os.makedirs(os.path.join(src, "d", "x"))
+    # x/y and a sibling file literally named 'x\y' (legal on POSIX) are two different listed files
+    for n, c in {"d/a": b"A", "d/b": b"B", "d/x/y": b"XY-slash", "d/x\\y": b"XY-backslash", "loose1": b"L1", "loose2": b"L2"}.items():
         open(os.path.join(src, n), "wb").write(c)
     objs = {}
     for n in ("d", "loose1", "loose2"):
         staging, _, obj = build(odb, os.path.join(src, n), fs, odb.hash_name)
         transfer(staging, odb, {obj.hash_info}, shallow=False)
         objs[n] = obj
+    # the subject here is gc, not the transfer that filled the store: whatever the listing names is put there independently
+    import hashlib
+    have = set(odb.all())
+    for c in (b"A", b"B", b"XY-slash", b"XY-backslash"):
+        if hashlib.md5(c).hexdigest() not in have:
+            odb.add_bytes(hashlib.md5(c).hexdigest(), c)
     return odb, objs
 
 
 def run():
     reps = []
     for cls, hash_name, shallow, dry, ro, only_dirs in itertools.product((HashFileDB, LocalHashFileDB), (None, "md5-dos2unix"), (True, False), (True, False), (False, True), (False, True)):
-      for used_kind in ("list", "set", "generator"):
+      for used_kind in ("list", "set", "generator", "list+corrupt-used-listing"):
+        corrupt = used_kind.endswith("corrupt-used-listing")
+        if corrupt and (shallow or ro or only_dirs):
+            continue
         with tempfile.TemporaryDirectory(dir="/var/tmp") as tmp:
             odb, objs = populate(tmp, cls, hash_name)
             d = objs["d"]
@@ -42,6 +52,11 @@ def run():
                 # everything but the directory object itself is in use: the garbage consists of directory objects only
                 used = [HashInfo(odb.hash_name, o) for o in odb.all() if not o.endswith(".dir")]
                 expect_used = {h.value for h in used}
+            if corrupt:
+                # the used directory object is unreadable (truncated copy): expanding it fails; whatever gc does about that, it
+                # removes no used object (the listing itself is one) and a dry run removes nothing
+                p_ = odb.oid_to_path(d.hash_info.value)
+                os.chmod(p_, 0o644); open(p_, "wb").write(open(p_, "rb").read()[:7])
             before = set(odb.all())
             cache = None
             if ro:
@@ -49,7 +64,7 @@ def run():
                 odb.read_only = True
             rep = {"cls": cls.__name__, "hash_name": hash_name, "shallow": shallow, "dry": dry, "read_only_store_with_writable_cache_odb": ro, "garbage_is_directory_objects_only": only_dirs}
             # the signature promises an Iterable: a list, a set, or a one-shot iterator (generator) of ids
-            used_arg = {"list": list(used), "set": set(used), "generator": (h for h in list(used))}[used_kind]
+            used_arg = {"list": list(used), "set": set(used), "generator": (h for h in list(used))}[used_kind.split("+")[0]]
             rep["used_given_as"] = used_kind
             try:
                 n = gc(odb, used_arg, cache_odb=cache, shallow=shallow, dry=dry)
@@ -68,7 +83,15 @@ def run():
                 elif set(odb.all()) != before:
                     rep["violation"] = "refused but changed the store"
             except Exception as e:  # noqa: BLE001
-                rep["violation"] = "raised " + repr(e)
+                from dvc_objects.errors import ObjectFormatError
+                if corrupt and isinstance(e, ObjectFormatError):
+                    after = set(odb.all())
+                    if dry and after != before:
+                        rep["violation"] = f"a dry run (which failed on an unreadable used listing) removed {sorted(before - after)}"
+                    elif d.hash_info.value not in after or (before & {objs['loose1'].hash_info.value}) - after:
+                        rep["violation"] = f"gc failed on an unreadable used listing and removed used objects {sorted((before - after))}"
+                else:
+                    rep["violation"] = "raised " + repr(e)
             reps.append(rep)
     return reps
 
